@@ -22,3 +22,6 @@ Interp.vos Interp.vok Interp.required_vos: Interp.v
 Corr.vo Corr.glob Corr.v.beautified Corr.required_vo: Corr.v PyAst.vo PyVal.vo PySem.vo XLemmas.vo Tactics.vo
 Corr.vio: Corr.v PyAst.vio PyVal.vio PySem.vio XLemmas.vio Tactics.vio
 Corr.vos Corr.vok Corr.required_vos: Corr.v PyAst.vos PyVal.vos PySem.vos XLemmas.vos Tactics.vos
+Defaults.vo Defaults.glob Defaults.v.beautified Defaults.required_vo: Defaults.v PyAst.vo
+Defaults.vio: Defaults.v PyAst.vio
+Defaults.vos Defaults.vok Defaults.required_vos: Defaults.v PyAst.vos
